@@ -118,6 +118,8 @@ def evaluate(pid, res, known, ledger, repo_root, tier):
             errors.append((r['label'], r['detail']))
         if r['status'] == 'ok' and not real:
             errors.append((r['label'], 'unit generated zero obligations'))
+        if r['status'] == 'ok' and r['unit'][0] == 'contract' and not canaries and not any(o['kind'] in ('noraise', 'raises-iff') for o in real):
+            errors.append((r['label'], 'VACUOUS: no exit path of the function was reached'))
         if canaries and all(o['result'] == 'proved' for o in canaries):
             errors.append((r['label'], 'VACUOUS: the canary `false` was proved on every exit path (contradictory preconditions?)'))
         base = (ledger or {}).get(r['label'])
